@@ -175,7 +175,15 @@ def function_level(chk, root):
             mfns.REC.calls.clear()
             assert mfns.ga(1) == 1 and mfns.gb(2) == [2, "gb"]
             # read-only: memoized calls are served, others computed, nothing written
+            # a leftover of a writer that died long ago (an old file in the staging directory): opening the store read-only
+            # must not clean it up
+            tmpd = os.path.join(data, ".tmp")
+            os.makedirs(tmpd, exist_ok=True)
+            stale = os.path.join(tmpd, "0a0a0a0a-1111-2222-3333-444444444444.link")
+            open(stale, "w").write(os.path.join(data, "c", ".versions", "gone", "x"))
+            os.utime(stale, (1.0e9, 1.0e9))
             for source in ("arg", "config", "cluster-config"):
+                before_open = fsaudit.snapshot([data])
                 kw = dict(memory_cache_mb=budget) if budget else {}
                 if source == "cluster-config":
                     # the whole cluster comes from configuration dictionaries (StorageBackend.create): first a writable cluster
@@ -194,6 +202,9 @@ def function_level(chk, root):
                           else FilesystemStorageBackend(config={"path": data, "readonly": True}, **kw))
                     m.Environment.set(env_with(st, base=base))
                 before = fsaudit.snapshot([data])
+                if source != "cluster-config" and before != before_open:
+                    fails.append(dict(clause="no-mutation-under-storage-paths", level="function", when="opening the store read-only",
+                                      budget=budget, source=source))
                 mfns.REC.calls.clear()
                 with fsaudit.Recorder([data]) as rec:
                     outs = [mfns.ga(1), mfns.gb(2), mfns.ga(3), mfns.ga(3), mfns.ga.call_batch([{"x": 1}, {"x": 4}])]
@@ -221,7 +232,14 @@ def function_level(chk, root):
                 mfns.REC.calls.clear()
                 outs = []
                 for thunk in (lambda: mfns.ga(1), lambda: mfns.ga(7), lambda: mfns.ga.call_batch([{"x": 1}, {"x": 8}]),
-                              lambda: mfns.gb(2)):
+                              lambda: mfns.gb(2),
+                              # chains of call modifiers (none of them asks for local execution)
+                              lambda: mfns.ga.monitor_progress().ignore_result()(9),
+                              lambda: mfns.ga.ignore_result().monitor_progress()(9),
+                              lambda: mfns.ga.monitor_progress().with_context_args({"k": 1}).call_batch([{"x": 9}]),
+                              lambda: mfns.ga.monitor_progress(True).monitor_progress(False).with_prevent_further_calls(True)(9),
+                              lambda: mfns.ga.monitor_progress().partial(x=9)(),
+                              lambda: mfns.ga.ignore_result().with_context_args({"k": 2}).monitor_progress().ignore_result(False)(9)):
                     try:
                         outs.append(("ok", thunk()))
                     except RuntimeError:
